@@ -31,11 +31,11 @@ func init() {
 }
 
 type XRaw struct {
-	Decl          bool
-	Prefix, URI   string // declaration
-	APrefix       string // attribute as written
-	Space, Local  string // attribute, expanded
-	Value         string
+	Decl         bool
+	Prefix, URI  string // declaration
+	APrefix      string // attribute as written
+	Space, Local string // attribute, expanded
+	Value        string
 }
 
 type XPiece struct {
